@@ -54,7 +54,7 @@ CHECKS = {
  "C05": ("exploration",
          "runtime monitor: exact directory model after every operation (single-threaded) driven by trigger decisions recorded at the Trigger boundary + stream oracle over archives and active file (concurrent)",
          "Histories mix appends sized around limit/buffer, empty records and restarts over size / on-start-up / time (driven clock) / scripted pre- and post-processing triggers and delete / fixed-window rollers (plain, gz, zst), built through the builder API or from a config document; after every operation the whole directory must equal the model. Concurrent runs are judged with the order-free stream oracle (only whole oldest files may be gone).",
-         "Trusted: window model, frames.rs. Histories are short (<= a few hundred records); background rotation only in the thorough tier.",
+         "Trusted: window model, frames.rs. Histories are short (<= a few hundred records). A build with log4rs' background_rotation feature runs the stream oracle in both tiers; overlapping appenders on one path are observed after every append.",
          "DESIGN.md §4 C05"),
  "C06": ("exploration",
          "runtime monitor: recording wrapper at the Trigger boundary comparing LogFile::len_estimate() with fs::metadata().len() at every policy consultation, plus exact directory model",
@@ -62,9 +62,9 @@ CHECKS = {
          "Trusted: the wrapper sees exactly the LogFile the policy sees. Histories <= 60 operations.",
          "DESIGN.md §4 C06"),
  "C07": ("exploration",
-         "runtime monitor: recursive directory snapshots (bytes, inode, mtime) before/after every Roll::roll call compared with a window model; strict decompression",
+         "runtime monitor: recursive directory snapshots (bytes, inode, mtime) before/after every Roll::roll call compared with a window model; inotify event log of every roll; strict decompression",
          "Roll::roll is called directly with generated bases, counts, patterns (index in name / directory / repeated / $ENV / gz / zst), initial directory states (gaps, archives beyond the window, look-alike bystanders) and contents; after every roll the managed names must hold exactly the window model and everything else must be byte-, inode- and mtime-identical.",
-         "Trusted: window model; flate2 MultiGzDecoder / zstd decode_all as strict decoders. A foreign file created and removed within one roll() is not observable.",
+         "Trusted: window model; flate2 MultiGzDecoder / zstd decode_all as strict decoders. Events on files that existed before a roll and are not managed names are violations (inotify); scratch files that are gone after the call are counted, not judged. Rolled file on another mount in an eighth of the cases; relative patterns in a sequential part.",
          "DESIGN.md §4 C07"),
  "C17": ("exploration",
          "runtime monitor: per-append rotation count from the exact directory model compared with the statement; barrier-released concurrent first appends with amplifier hook",
